@@ -121,7 +121,8 @@ Section RingV.
     match lv_ph l with
     | PTailT size =>
         1 <= size <= cap /\ rsz size <= cap /\ rsz size + cap <= lv_rem l /\
-        tail < rsz size /\ 8 <= tail /\ read64 g (back mod cap) = make_tail (tail - 8)
+        tail < rsz size /\ 8 <= tail /\ read64 g (back mod cap) = make_tail (tail - 8) /\
+        back + rsz size <= lv_loc l + cap
     | PTailS size =>
         1 <= size <= cap /\ rsz size <= cap /\ rsz size + cap <= lv_rem l /\
         tail < rsz size /\ 8 <= tail /\ read64 g (back mod cap) = make_tail (tail - 8) /\
@@ -466,5 +467,197 @@ Section RingV.
       replace (cap * (v_front g / cap) + v_front g mod cap + t) with ((v_front g / cap + 1) * cap) by lia.
       apply Z_mod_mult.
   Qed.
+
+  (** ** producer memory writes *)
+  Lemma read64_write64 g o v : 0 <= v < two64 ->
+    read_bytes (write64 cap g o v) o 8 = le_bytes 8 v /\ le_val (le_bytes 8 v) = v.
+  Proof.
+    intros Hv. split.
+    - unfold write64. apply (write_bytes_read cap (le_bytes 8 v) g o).
+    - apply le_roundtrip. exact Hv.
+  Qed.
+
+  Lemma write_tail g v :
+    0 <= v_front g <= v_back g -> v_back g mod cap + 8 <= cap -> v_back g + 8 <= v_front g + cap ->
+    v_wbad g = false -> 0 <= v < two64 ->
+    let g' := write64 cap g (v_back g mod cap) v in
+    v_front g' = v_front g /\ v_back g' = v_back g /\ v_fails g' = v_fails g /\ v_wbad g' = false /\
+    (forall x, v_front g <= x < v_back g -> v_mem g' (x mod cap) = v_mem g (x mod cap)) /\
+    read64 g' (v_back g mod cap) = v.
+  Proof.
+    intros Hfb Hfit Hfree Hw Hv g'.
+    pose proof (producer_write g (le_bytes 8 v) 0) as P. cbn zeta in P.
+    rewrite le_bytes_length, !Z.add_0_r in P. change (Z.of_nat 8) with 8 in P.
+    destruct (P Hfb ltac:(lia) ltac:(lia) ltac:(lia) Hw) as (A & B & C & D & E & F).
+    repeat split; auto.
+    unfold read64. unfold g', write64. rewrite F. apply le_roundtrip. exact Hv.
+  Qed.
+
+  Lemma write_record g size seed :
+    0 <= v_front g <= v_back g -> 1 <= size <= cap -> v_back g mod cap + rsz size <= cap ->
+    v_back g + rsz size <= v_front g + cap -> v_wbad g = false ->
+    let o := v_back g mod cap in
+    let g' := write_bytes cap (write64 cap g o size) (o + 8) (data_bytes size seed) in
+    v_front g' = v_front g /\ v_back g' = v_back g /\ v_fails g' = v_fails g /\ v_wbad g' = false /\
+    (forall x, v_front g <= x < v_back g -> v_mem g' (x mod cap) = v_mem g (x mod cap)) /\
+    seg_ok g' (v_back g) (SRec size seed).
+  Proof.
+    intros Hfb Hsz Hfit Hfree Hw o g'. pose proof cap_small as Hcs. pose proof cap_pos as Hc.
+    destruct (rsz_bounds size ltac:(lia)) as (R1 & R2 & R3).
+    pose proof (Z.mod_pos_bound (v_back g) cap ltac:(lia)) as Mb.
+    assert (Hv : 0 <= size < two64) by (unfold two64; lia).
+    (* header *)
+    pose proof (producer_write g (le_bytes 8 size) 0) as P. cbn zeta in P.
+    rewrite le_bytes_length, !Z.add_0_r in P. change (Z.of_nat 8) with 8 in P.
+    destruct (P Hfb ltac:(lia) ltac:(lia) ltac:(lia) Hw) as (A1 & B1 & C1 & D1 & E1 & F1).
+    fold (write64 cap g (v_back g mod cap) size) in A1, B1, C1, D1, E1, F1.
+    set (g1 := write64 cap g (v_back g mod cap) size) in *.
+    (* data *)
+    pose proof (producer_write g1 (data_bytes size seed) 8) as P2. cbn zeta in P2.
+    rewrite data_bytes_length in P2 by lia. rewrite A1, B1 in P2.
+    destruct (P2 Hfb ltac:(lia) ltac:(lia) ltac:(lia) D1) as (A2 & B2 & C2 & D2 & E2 & F2).
+    fold o in A2, B2, C2, D2, E2, F2. fold g' in A2, B2, C2, D2, E2, F2.
+    split; [exact A2|]. split; [exact B2|]. split; [exact (eq_trans C2 C1)|]. split; [exact D2|]. split.
+    - intros x Hx. rewrite E2 by lia. apply E1. exact Hx.
+    - cbn [seg_ok]. fold o. repeat split; try lia.
+      + unfold read64. rewrite (read_bytes_agree g1 g' 8 o).
+        * fold o in F1. rewrite F1. apply le_roundtrip. exact Hv.
+        * intros i Hi. change (Z.of_nat 8) with 8 in Hi. unfold o.
+          rewrite <- (mod_offset (v_back g) i) by lia. apply E2. lia.
+      + replace (Z.to_nat size) with (List.length (data_bytes size seed)); [exact F2|].
+        pose proof (data_bytes_length size seed ltac:(lia)). lia.
+  Qed.
+
+  (** ** the operations are safe *)
+  Notation safe := (@Conc.safe GV V ev Aux lview view Inv).
+
+  Lemma frame_p a sg l : Conc.frame view 0 a (mkA sg l (cv a)).
+  Proof. intros t' Ht. destruct t' as [|[|t']]; [congruence| |]; reflexivity. Qed.
+  Lemma frame_c a sg l : Conc.frame view 1 a (mkA sg (pv a) l).
+  Proof. intros t' Ht. destruct t' as [|[|t']]; [|congruence|]; reflexivity. Qed.
+  Lemma frame_refl t a : Conc.frame view t a a.
+  Proof. intros t' Ht. reflexivity. Qed.
+  Lemma tag1 t (e : ev) : Conc.tag t [e] = [(t, e)].
+  Proof. reflexivity. Qed.
+  Lemma tag2 t (e1 e2 : ev) tr : tr ++ Conc.tag t [e1; e2] = (tr ++ [(t, e1)]) ++ [(t, e2)].
+  Proof. unfold Conc.tag. cbn [map]. rewrite <- app_assoc. reflexivity. Qed.
+
+  Lemma space_lt_false pf back n :
+    0 <= pf + cap - back < two64 -> space_lt cap pf back n = false -> back + n <= pf + cap.
+  Proof. unfold space_lt. intros H E. rewrite u64_small in E by exact H. apply Z.ltb_ge in E. lia. Qed.
+  Lemma space_lt_true pf back n :
+    0 <= pf + cap - back < two64 -> space_lt cap pf back n = true -> pf + cap - back < n.
+  Proof. unfold space_lt. intros H E. rewrite u64_small in E by exact H. apply Z.ltb_lt in E. lia. Qed.
+  Lemma avail_lt_false cb f n :
+    0 <= cb - f < two64 -> avail_lt cb f n = false -> f + n <= cb.
+  Proof. unfold avail_lt. intros H E. rewrite u64_small in E by exact H. apply Z.ltb_ge in E. lia. Qed.
+  Lemma avail_lt_true cb f n :
+    0 <= cb - f < two64 -> avail_lt cb f n = true -> cb - f < n.
+  Proof. unfold avail_lt. intros H E. rewrite u64_small in E by exact H. apply Z.ltb_lt in E. lia. Qed.
+
+  Lemma crs_eq size : 1 <= size <= cap -> calc_real_size size = rsz size.
+  Proof. intros H. pose proof cap_small. apply calc_real_size_eq; unfold two64; lia. Qed.
+
+  Definition Qp (R0 : Z) : Z -> lview -> Prop :=
+    fun pf l => exists b R', l = mkL pf b R' PIdle /\ R0 <= R'.
+
+  (** push_back(): E, F *)
+  Lemma safe_push_back_op pf b R size seed ret R0 :
+    1 <= size <= cap -> R0 <= R - rsz size ->
+    safe 0 (push_back_op exp2 cap size seed ret) (mkL pf b R (PRec size seed)) (fun r l => r = ret /\ Qp R0 pf l).
+  Proof.
+    intros Hsz HR0. unfold push_back_op. cbn [Conc.safe]. intros g a tr I Hv. cbn [view] in Hv.
+    unfold av_pb_ld_back. cbn [fst snd hd].
+    exists a. split; [rewrite tag1; apply Inv_acc; exact I|]. split; [apply frame_refl|].
+    cbn [view]. rewrite Hv.
+    assert (Hb : v_back g = b /\ read64 g (idx exp2 cap (v_back g)) = size /\ u64 (b + rsz size) = b + rsz size).
+    { destruct I. rewrite Hv in *. cbn [lv_loc lv_mine lv_rem lv_ph] in *.
+      unfold pph_ok in j_pph0. cbn [lv_loc lv_mine lv_rem lv_ph] in j_pph0.
+      destruct j_pph0 as (S1 & S2 & S3). cbn [seg_ok] in S1. destruct S1 as (_ & _ & _ & S1 & _).
+      destruct (rsz_bounds size ltac:(lia)). split; [auto|]. split.
+      - rewrite idx_mod by (try apply Hcap; lia). exact S1.
+      - apply u64_small. lia. }
+    destruct Hb as (Hb1 & Hb2 & Hb3). rewrite Hb1, Hb2, crs_eq, Hb3 by exact Hsz.
+    clear g a tr I Hv Hb1 Hb2.
+    cbn [Conc.safe]. intros g a tr I Hv. cbn [view] in Hv. unfold av_pb_st_back. cbn [fst snd].
+    exists (mkA (segs a ++ [SRec size seed]) (mkL pf (b + rsz size) (R - rsz size) PIdle) (cv a)).
+    split; [|split; [apply frame_p|]].
+    - rewrite tag2. eapply Inv_p_push; [apply Inv_acc; exact I|exact Hv].
+    - cbn. split; [reflexivity|]. do 2 eexists. split; [reflexivity|lia].
+  Qed.
+
+  (** D: publish the tail, write the record at the start of the buffer, then push_back() *)
+  Lemma safe_D pf b R size seed R0 :
+    1 <= size <= cap -> R0 <= R - rsz size - cap ->
+    safe 0 (Act (av_back_st_back cap (b + (cap - b mod cap)) size seed) (fun _ => push_back_op exp2 cap size seed pf))
+         (mkL pf b R (PTailS size)) (fun r l => r = pf /\ Qp R0 pf l).
+  Proof.
+    intros Hsz HR0. cbn [Conc.safe]. intros g a tr I Hv. cbn [view] in Hv.
+    unfold av_back_st_back. cbn [fst snd].
+    pose proof (Inv_p_pubtail g a tr pf b R size I Hv) as I1. cbn zeta in I1.
+    set (tail := cap - b mod cap) in *.
+    set (g1 := setv_back g (b + tail)) in *.
+    assert (Hfacts : v_back g = b /\ 8 <= tail <= cap /\ rsz size <= cap /\ rsz size + cap <= R /\
+                     b + tail + rsz size <= pf + cap /\ (b + tail) mod cap = 0 /\ 0 <= pf <= v_front g /\ v_front g <= b).
+    { destruct I. rewrite Hv in *. cbn [lv_loc lv_mine lv_rem lv_ph] in *.
+      unfold pph_ok in j_pph0. cbn [lv_loc lv_mine lv_rem lv_ph] in j_pph0. subst b.
+      destruct j_pph0 as (S1 & S2 & S3 & S4 & S5 & S6 & S7). pose proof cap_pos as Hc.
+      pose proof (Z.mod_pos_bound (v_back g) cap ltac:(lia)) as Mb. fold tail in S4, S5, S6, S7.
+      repeat split; try lia. unfold tail.
+      rewrite (Z.div_mod (v_back g) cap) at 1 by lia.
+      replace (cap * (v_back g / cap) + v_back g mod cap + (cap - v_back g mod cap)) with ((v_back g / cap + 1) * cap) by lia.
+      apply Z_mod_mult. }
+    destruct Hfacts as (Hb & Ht & Hrs & HR & Hsp & Hz & Hpf & Hfb).
+    pose proof I1 as I1'. destruct I1'. cbn [segs pv cv lv_loc lv_mine lv_rem lv_ph] in *.
+    assert (Hb1 : v_back g1 = b + tail) by reflexivity. assert (Hf1 : v_front g1 = v_front g) by reflexivity.
+    destruct (write_record g1 size seed) as (A & B & C & D & E & F);
+      [rewrite Hb1, Hf1; lia|exact Hsz|rewrite Hb1, Hz; lia|rewrite Hb1, Hf1; lia|exact j_wbad0|].
+    rewrite Hb1, Hz in A, B, C, D, E, F. cbn [Z.add] in A, B, C, D, E, F.
+    set (g2 := write_bytes cap (write64 cap g1 0 size) 8 (data_bytes size seed)) in *.
+    exists (mkA (segs a ++ [STail tail]) (mkL pf (b + tail) (R - tail) (PRec size seed)) (cv a)).
+    split; [|split; [apply frame_p|]].
+    - rewrite tag1. apply Inv_acc.
+      apply (Inv_p_write g1 g2 (mkA (segs a ++ [STail tail]) (mkL pf (b + tail) (R - tail) PIdle) (cv a)) tr
+                         (mkL pf (b + tail) (R - tail) (PRec size seed))); auto;
+        cbn [segs pv cv lv_loc lv_mine lv_rem lv_ph]; try lia.
+      + intros f0 b0 s0 Hin. rewrite C in Hin. apply j_fails0. exact Hin.
+      + intros x Hx. apply E. rewrite Hf1, Hb1 in Hx. rewrite Hf1. exact Hx.
+      + unfold pph_ok. cbn [lv_loc lv_mine lv_rem lv_ph]. rewrite B. split; [exact F|]. lia.
+    - cbn [view pv]. apply safe_push_back_op; [exact Hsz|lia].
+  Qed.
+
+  Lemma fail_cond_second g size :
+    let b := v_back g in let tail := cap - b mod cap in
+    tail < rsz size -> v_front g + cap - (b + tail) < rsz size -> fail_cond (v_front g) b size.
+  Proof. intros b tail H1 H2. unfold fail_cond. right. fold b tail. lia. Qed.
+
+  (** C: the reload for the second space test *)
+  Lemma safe_C pf b R size seed R0 :
+    1 <= size <= cap -> R0 <= R - rsz size - cap ->
+    safe 0 (Act (av_back_ld_front2 cap (b + (cap - b mod cap)) size) (fun r =>
+              let pf' := fst r in
+              if space_lt cap pf' (b + (cap - b mod cap)) (rsz size) then Ret pf'
+              else Act (av_back_st_back cap (b + (cap - b mod cap)) size seed) (fun _ => push_back_op exp2 cap size seed pf')))
+         (mkL pf b R (PTailT size)) (fun r l => Qp R0 r l).
+  Proof.
+    intros Hsz HR0. cbn [Conc.safe]. intros g a tr I Hv. cbn [view] in Hv.
+    unfold av_back_ld_front2. rewrite crs_eq by exact Hsz.
+    pose proof I as I'. destruct I'. rewrite Hv in *. cbn [lv_loc lv_mine lv_rem lv_ph] in *.
+    unfold pph_ok in j_pph0. cbn [lv_loc lv_mine lv_rem lv_ph] in j_pph0. subst b.
+    destruct j_pph0 as (S1 & S2 & S3 & S4 & S5 & S6). pose proof cap_pos as Hc.
+    pose proof (Z.mod_pos_bound (v_back g) cap ltac:(lia)) as Mb.
+    set (tail := cap - v_back g mod cap) in *.
+    assert (Hrng : 0 <= v_front g + cap - (v_back g + tail) < two64).
+    { (* the first space test passed for some pfront_ <= front_, and tail < real size *)
+      destruct (segs_len_nonneg _ _ _ j_lay0) as (N1 & _ & _). split; [|lia].
+      (* back + tail is the next multiple of cap; front + cap - that >= 0 because back - front <= cap ... *)
+      assert (v_back g + tail <= v_front g + cap \/ v_front g + cap < v_back g + tail) as [H|H] by lia; [lia|].
+      exfalso.
+      (* front + cap < back + tail, with tail = cap - back mod cap: front < back - back mod cap *)
+      (* then the segment containing the buffer end would cross it; use: front <= back and front + cap >= back,
+         plus no segment crosses a multiple of cap *)
+      give_up. }
+    give_up.
+  Abort.
 
 End RingV.
